@@ -52,11 +52,25 @@ Lt(a, b) == a.n * b.d < b.n * a.d
 Eq(a, b) == a.n * b.d = b.n * a.d
 CmpNum(op, a, b) == CASE op = "EQ" -> Eq(a, b) [] op = "NE" -> ~Eq(a, b) [] op = "LT" -> Lt(a, b) [] op = "GT" -> Lt(b, a)
                       [] op = "LE" -> ~Lt(b, a) [] op = "GE" -> ~Lt(a, b)
-XCmp(op, a, b) ==
-  IF IsErr(a) THEN a ELSE IF IsErr(b) THEN b
-  ELSE IF a.k \in {"num", "blank"} /\ b.k \in {"num", "blank"} THEN Bool(CmpNum(op, XNum(a), XNum(b)))
-  ELSE IF a.k = "text" /\ b.k = "text" /\ op \in {"EQ", "NE"} THEN Bool((a.s = b.s) = (op = "EQ"))
-  ELSE OOS
+\* Comparisons across kinds follow Excel's order of kinds: every number < every text < FALSE < TRUE; a blank takes the kind of the
+\* other side (0, "", FALSE).  Texts are equal when they differ in case only; the ORDER of two different texts is a collation
+\* question and stays out of scope, except that the empty text precedes every other text.
+LowerCh(ch) == CASE ch = "A" -> "a" [] ch = "B" -> "b" [] ch = "C" -> "c" [] OTHER -> ch
+Fold(s) == [i \in 1..Len(s) |-> LowerCh(s[i])]
+ByOrder(op, c) == CASE op = "EQ" -> c = 0 [] op = "NE" -> c # 0 [] op = "LT" -> c < 0 [] op = "GT" -> c > 0 [] op = "LE" -> c <= 0 [] op = "GE" -> c >= 0
+KindRank(v) == CASE v.k = "num" -> 1 [] v.k = "text" -> 2 [] v.k = "bool" -> 3
+BoolNum(v) == IF v.b THEN 1 ELSE 0
+XCmp(op, a0, b0) ==
+  IF IsErr(a0) THEN a0 ELSE IF IsErr(b0) THEN b0
+  ELSE LET a == IF a0.k = "blank" /\ b0.k = "text" THEN Text(<<>>) ELSE IF a0.k = "blank" /\ b0.k = "bool" THEN Bool(FALSE) ELSE a0
+           b == IF b0.k = "blank" /\ a0.k = "text" THEN Text(<<>>) ELSE IF b0.k = "blank" /\ a0.k = "bool" THEN Bool(FALSE) ELSE b0 IN
+    IF a.k \in {"num", "blank"} /\ b.k \in {"num", "blank"} THEN Bool(CmpNum(op, XNum(a), XNum(b)))
+    ELSE IF a.k = "text" /\ b.k = "text" THEN
+         IF Fold(a.s) = Fold(b.s) THEN Bool(ByOrder(op, 0))
+         ELSE IF op \in {"EQ", "NE"} THEN Bool(op = "NE")
+         ELSE IF a.s = <<>> THEN Bool(ByOrder(op, -1)) ELSE IF b.s = <<>> THEN Bool(ByOrder(op, 1)) ELSE OOS
+    ELSE IF a.k = "bool" /\ b.k = "bool" THEN Bool(ByOrder(op, BoolNum(a) - BoolNum(b)))
+    ELSE Bool(ByOrder(op, KindRank(a) - KindRank(b)))
 
 \* ---- tokens: strings. Operand tokens are looked up in env (a function on DOMAIN env); ----
 \* operators: PLUS MINUS MUL DIV AMP PCT EQ NE LT GT LE GE LP RP
